@@ -92,7 +92,9 @@ TRUSTED = [
     'literal/complement extraction: the harness hands the model the literals, '
     'complement references and option tokens it generated',
     'float(spelling) and int(float(spelling)) of numeric tokens are computed '
-    'by the harness and handed to the model (tval/tint)',
+    'by the harness and handed to the model (tval/tint); for every token that '
+    'Python\'s int() reads, the generated Coq files check that tint is the '
+    'value the model\'s own reader (py_int) gives (Exec.tok_ok)',
     'harness: generators, fault injector, exception-class mapping',
 ]
 ASSUMPTIONS = [
